@@ -19,7 +19,7 @@
     C08: "from that moment no object stored in the same or an older block is
     returned or reported present, while objects in newer blocks are unaffected". *)
 From Coq Require Import List ZArith Bool Lia.
-From BBS Require Import Common.Sx Store.Quarantine Store.QuarantineProofs Store.CasMax Run.R08Q Run.R08QProofs Store.QFuel.
+From BBS Require Import Common.Sx Store.Quarantine Store.QuarantineProofs Store.CasMax Run.R08Q Run.R08QProofs Store.QFuel Store.QFine.
 Import ListNotations.
 Open Scope Z_scope.
 
@@ -148,7 +148,8 @@ Print Assumptions mon08Q_silent_on_model.
     operation of call i): the variable never decreases, stays within the largest
     value asked for, equals the start value plus the amounts returned (what the
     error logger reports), and a call that has returned has its value in place
-    for ever. *)
+    for ever.  (Composed with the main model below:
+    [fine_grained_refines_atomic_maximum].) *)
 Theorem cas_loop_is_atomic_maximum : forall v0 es,
   let s := crun v0 es in
   v0 <= c_v s <= max_new v0 (c_ths s)
@@ -158,6 +159,75 @@ Theorem cas_loop_is_atomic_maximum : forall v0 es,
   /\ (forall es', c_v s <= c_v (fold_left cstep es' s)).
 Proof. exact cas_loop_is_atomic_maximum_all. Qed.
 Print Assumptions cas_loop_is_atomic_maximum.
+
+(** COMPOSITION of the two models (Store/QFine.v).  The fine-grained system:
+    the state of Store/Quarantine.v plus, for every reader's callback and for
+    the Put thread's raise, a program counter of the compare-and-swap loop; an
+    event [EDetect r] / an [EPut] at [PRaise] performs ONE Load or ONE
+    CompareAndSwap ([cas_op] = [CasMax.cstep] on the boundary and that thread),
+    interleaved arbitrarily with the operations of all other callers and with
+    every other step of the model.  For EVERY event list [es] from the
+    constructor's state: the abstract states along the fine-grained trace are
+    the states along a trace of the coarse model (Store/Quarantine.v, where a
+    call is one atomic-maximum step) whose events are [lins]: the coarse step
+    at the linearisation point of a call (the Load that finds new <= old, the
+    CompareAndSwap that succeeds), a stutter step (None) for every other Load
+    and every failed CompareAndSwap.  So every state of the fine-grained system
+    is a reachable state of the coarse model and every theorem above about
+    [run_evs c (init_of c) es] holds of it.  Safety only: that a call
+    eventually returns (lock-freedom: a CompareAndSwap fails only because
+    another call's succeeded) is not stated. *)
+Theorem fine_grained_refines_atomic_maximum : forall c es,
+  map f_q (ftrace c (finit c) es) = ctrace c (init_of c) (lins c (finit c) es)
+  /\ f_q (frun c (finit c) es) = run_evs c (init_of c) (somes (lins c (finit c) es)).
+Proof. exact fine_refines_coarse_all. Qed.
+Print Assumptions fine_grained_refines_atomic_maximum.
+
+(** Same observations: when the callback of reader [r] would finish at the
+    next fine-grained step (its call returns), that step is the coarse
+    [EDetect r] and the caller sees what the coarse model reports - INTERNAL
+    and the amount the call returned (what the error logger prints); in every
+    other case the step is a stutter step.  (Visibility, can_open and the
+    finalizers are functions of the abstract state.) *)
+Theorem fine_grained_callback_result : forall c es r,
+  let s := frun c (finit c) es in
+  match fobs s r with
+  | Some o => lin c s (EDetect r) = Some (EDetect r) /\ o = detect_obs (f_q s) r
+  | None => lin c s (EDetect r) = None
+  end.
+Proof. exact fine_detect_obs_all. Qed.
+Print Assumptions fine_grained_callback_result.
+
+(** The operation the fine-grained system performs is the step of
+    Store/CasMax.v: in a CasMax state with any number of threads, a step of
+    thread i is [cas_op] on the variable and that thread. *)
+Theorem cas_step_is_the_composed_operation : forall s i t,
+  nth_error (c_ths s) i = Some t ->
+  cstep s (CStep i) =
+  {| c_v := fst (cas_op (c_v s) (c_new t) (c_pc t));
+     c_ths := match c_pc t with
+              | CRet _ => c_ths s
+              | _ => upd (c_ths s) i {| c_new := c_new t; c_pc := snd (cas_op (c_v s) (c_new t) (c_pc t)) |}
+              end |}.
+Proof. exact cstep_is_cas_op. Qed.
+Print Assumptions cas_step_is_the_composed_operation.
+
+Theorem fine_grained_state_invariant : forall c es, wf0 c -> Inv (f_q (frun c (finit c) es)).
+Proof. exact fine_state_inv. Qed.
+Print Assumptions fine_grained_state_invariant.
+
+(** Non-vacuity: 3 restored blocks; two readers (blocks 0 and 2, both damaged)
+    race: both Load 0, reader 1's CompareAndSwap(0,3) succeeds, reader 0's
+    CompareAndSwap(0,1) fails, its second Load finds 1 <= 3 and returns 0. *)
+Example ex_fine_race :
+  let c := inp_cfg (L [L [A 32; A 1; A 1; A 1; A 0; A 2; A 3]; L []]) in
+  let es := [EOpen 0 true; EOpen 2 true; EDetect 0; EDetect 1; EDetect 1; EDetect 0; EDetect 0] in
+  lins c (finit c) es
+  = [Some (EOpen 0 true); Some (EOpen 2 true); None; None; Some (EDetect 1); None; Some (EDetect 0)]
+  /\ map (fun s => (tbr (f_q s), f_rp s)) (ftrace c (finit c) es)
+    = [(0, [CLoad]); (0, [CLoad; CLoad]); (0, [CCas 0; CLoad]); (0, [CCas 0; CCas 0]);
+       (3, [CCas 0; CRet 3]); (3, [CLoad; CRet 3]); (3, [CRet 0; CRet 3])].
+Proof. vm_compute. split; reflexivity. Qed.
 
 (** Two calls racing (5 then 3 asked for, the loser of the CompareAndSwap
     retries): both return, the variable holds the maximum. *)
@@ -207,6 +277,26 @@ Example ex_run :
                            L [A 1; L []; L [A 1; A 1; A 1]]];
          L [A 1; A 1; A 1; A 1]] ].
 Proof. vm_compute. reflexivity. Qed.
+
+(** Restored blocks: 5 blocks under a capacity of 1 old + 1 current + 1 new
+    (immutable policy): the constructor quarantines blocks 0-1; a reader on
+    block 3 fails inside the first Put()'s catch-up loop; that Put() releases
+    the two blocks of its snapshot, the next one the two others. *)
+Definition ex_inp_restored : sx :=
+  L [L [A 32; A 1; A 1; A 1; A 0; A 2; A 5];
+     L [L [A 1; A 3; A 1]; L [A 0; A 30; L [L [A 0]]]; L [A 0; A 30; L []]]].
+Example ex_run_restored :
+  wfq (inp_cfg ex_inp_restored) /\ sizes_ok (inp_cfg ex_inp_restored) (inp_ops ex_inp_restored) = true /\
+  run08Q ex_inp_restored =
+  L [L [A 1; A 1; L [A 0; A 0; A 1; A 1; A 1]];
+     L [A 0; A 0; A 1;
+        L [L [A 0; L [L [A 13; A 2]]; L [A 0; A 0; A 0; A 0; A 1]];
+           L [A 0; L []; L [A 0; A 0; A 0; A 1]]];
+        L [A 0; A 0; A 1]];
+     L [A 0; A 0; A 0;
+        L [L [A 0; L []; L [A 0; A 0; A 1]]; L [A 0; L []; L [A 0; A 1]]; L [A 1; L []; L [A 1]]];
+        L [A 1; A 1]]].
+Proof. split; [unfold wfq; cbn; lia|]. split; vm_compute; reflexivity. Qed.
 
 (** The monitor is not vacuous: had the boundary moved one block too far during
     that Put() (what "totalBlocksToBeReleased.Add(1)" in the rotation does), the
